@@ -42,7 +42,7 @@ func init() {
 			if cfg.Expiry == "" {
 				continue
 			}
-			if !thorough && cfg.Refresh != "" && cfg.Expiry != "writing" {
+			if !thorough && cfg.Refresh != "" && cfg.Expiry != "writing" && cfg.Expiry != "creating" {
 				continue
 			}
 			var prefixes [][]string
@@ -270,6 +270,14 @@ func init() {
 						depth = 4
 					}
 					jobs = append(jobs, seqJob(seqParams{Cfg: cfg, Alphabet: a, Kinds: kinds, Probe: true}, depth, 2, 300, "probes", "hook-checks"))
+					if ref != "" && origin == 0 {
+						// the other node types that carry both deadlines (size- and weight-bounded)
+						for _, b := range []CacheCfg{{MaxSize: 8}, {MaxWeight: 100}} {
+							bc := cfg
+							bc.MaxSize, bc.MaxWeight = b.MaxSize, b.MaxWeight
+							jobs = append(jobs, seqJob(seqParams{Cfg: bc, Alphabet: a, Kinds: kinds, Probe: true}, depth, 2, 300, "probes", "hook-checks"))
+						}
+					}
 				}
 			}
 		}
@@ -361,6 +369,16 @@ func init() {
 				depth, budget = 4, 600
 			}
 			jobs = append(jobs, seqJob(seqParams{Cfg: cfg, Alphabet: a, Kinds: kinds, Stats: true}, depth, 4, budget))
+		}
+		// byte-size like weights: the cumulative eviction weight passes 2^32 after a few evictions
+		{
+			cfg := CacheCfg{MaxWeight: 4 << 28, WeightShift: 28}
+			a := []string{"set 1 4", "set 2 3", "set 3 15", "set 4 9", "set 1 1", "get 1", "inv 2", "setmax 0", fmt.Sprintf("setmax %d", uint64(4)<<28), "cleanup"}
+			depth := 5
+			if thorough {
+				depth = 6
+			}
+			jobs = append(jobs, seqJob(seqParams{Cfg: cfg, Alphabet: a, Kinds: kinds, Stats: true}, depth, 4, 60, "overflow-evictions"))
 		}
 		// refresh tasks that wait in a queued executor while the key is written, invalidated or read again
 		for _, cfg := range []CacheCfg{
